@@ -21,6 +21,9 @@ func init() {
 		return aliasBytes(atoi(a[0]), atoi(a[2]), atoi(a[3]), a[4] == "1", unhx(a[1]))
 	}
 	ops["alias_table"] = func(a []string) string { return aliasTable(atoi(a[0]), atoi(a[1]), atoi(a[2])) }
+	// alias_repair <variant>: Repair on a table whose fragments are multi-part
+	// locations held in slices of the caller (the merge must not write into them)
+	ops["alias_repair"] = func(a []string) string { return aliasRepair(atoi(a[0])) }
 }
 
 // layout: one buffer  [pad | host(hl) | guest(gl) | spare...]: host and guest
@@ -238,6 +241,44 @@ func aliasBytes(op, hl, gl int, spare bool, buf []byte) string {
 	return join("ok", hx(buf), hx(r.Bytes()))
 }
 
+func aliasRepair(variant int) string {
+	mk := func() []gts.Feature {
+		props := gts.Props{{"gene", "a"}}
+		leftParts := make([]gts.Location, 2, 4)
+		leftParts[0], leftParts[1] = gts.Range(0, 10), gts.PartialRange(20, 30, gts.Partial3)
+		var left gts.Location = gts.Joined(leftParts)
+		if variant%2 == 1 {
+			left = gts.Ordered(leftParts)
+		}
+		var right gts.Location = gts.PartialRange(30, 40, gts.Partial5)
+		if variant >= 2 {
+			rp := make([]gts.Location, 2, 4)
+			rp[0], rp[1] = gts.PartialRange(30, 40, gts.Partial5), gts.Range(50, 60)
+			right = gts.Joined(rp)
+		}
+		if variant >= 4 {
+			left, right = gts.Complemented{Location: right}, gts.Complemented{Location: left}
+		}
+		tab := make([]gts.Feature, 0, 6)
+		tab = append(tab, gts.Feature{Key: "source", Loc: gts.Range(0, 60), Props: gts.Props{{"organism", "x"}}},
+			gts.Feature{Key: "gene", Loc: left, Props: props}, gts.Feature{Key: "gene", Loc: right, Props: props})
+		return tab
+	}
+	tab := mk()
+	before := featsSx(tab[:cap(tab)][:len(tab)])
+	r1 := featsSx(gts.Repair(tab))
+	if featsSx(tab) != before {
+		return "changed"
+	}
+	if featsSx(gts.Repair(tab)) != r1 {
+		return "unstable"
+	}
+	if fresh := featsSx(gts.Repair(mk())); fresh != r1 {
+		return "differs-from-fresh"
+	}
+	return "same"
+}
+
 func aliasTable(n, spare, i int) string {
 	store := make([]gts.Feature, n, n+spare)
 	for k := 0; k < n; k++ {
@@ -280,6 +321,11 @@ func runC11(o *Out) {
 			for i := 0; i <= n; i++ {
 				o.Run("alias-table", spare > 0, "alias_table", itoa(n), itoa(spare), itoa(i))
 			}
+		}
+	}
+	for v := 0; v < 6; v++ {
+		if res := o.Run("alias-repair", true, "alias_repair", itoa(v)); res != "same" {
+			o.Violate("argument-modified", join("alias_repair", itoa(v)), res)
 		}
 	}
 	for _, op := range aliasOps {
